@@ -25,6 +25,7 @@ func register(s *Spec) {
 		installRoles(p)
 		run(p, r)
 	}
+	s.Decides += decidesExtra[s.ID]
 	registry[s.ID] = s
 }
 
